@@ -205,13 +205,15 @@ pub fn var_pk_from_secret(sk: &[u8; 32]) -> [u8; VAR_PK_LEN] {
     out
 }
 
-/// sig[0] = total length, sig[1..] = keccak stream over (pk, msg). No security intended.
 pub const VAR_MIN_SIG_LEN: usize = 17;
 
+/// A keccak stream over (pk, msg), cut at the length the signer chooses (17..=255 bytes). The
+/// scheme is prefix-closed on purpose: a shorter signature of the same message is a prefix of a
+/// longer one, so comparisons that stop at the shorter length are exposed. No security intended
+/// (anybody can compute it, and truncations verify): the toy scheme is outside C01.
 pub fn var_sign(pk: &[u8], msg: &[u8], len: usize) -> Vec<u8> {
-    // at least 16 bytes of hash material, or the toy signature would bind nothing
     let len = len.clamp(VAR_MIN_SIG_LEN, 255);
-    let mut out = vec![len as u8];
+    let mut out = Vec::with_capacity(len);
     let mut ctr = 0u8;
     while out.len() < len {
         let mut inp = pk.to_vec();
@@ -226,7 +228,7 @@ pub fn var_sign(pk: &[u8], msg: &[u8], len: usize) -> Vec<u8> {
 }
 
 pub fn var_verify(pk: &[u8], msg: &[u8], sig: &[u8]) -> bool {
-    if sig.len() < VAR_MIN_SIG_LEN || sig.len() > 255 || usize::from(sig[0]) != sig.len() {
+    if sig.len() < VAR_MIN_SIG_LEN || sig.len() > 255 {
         return false;
     }
     var_sign(pk, msg, sig.len()) == sig
